@@ -321,3 +321,116 @@ def interface_precondition(atoms, groups, threshold=BOND_THRESHOLD, margin=MARGI
     _, d, _ = omic.mic_vectors(diffs, atoms.get_cell().array, atoms.get_pbc())
     corr = d.reshape(len(ia), len(ib)) - r[ia][:, None] - r[ib][None, :]
     return bool((corr <= threshold - margin).any())
+
+
+# ------------------------------------------------------------------------------------------- monolayers (C04, C18)
+MONOLAYERS = ["graphene", "h-BN", "2H-MoS2", "2H-WS2", "1T-TiS2", "1T-WSe2"]
+
+
+def monolayer_unit(name, vacuum=6.0):
+    from ase.build import graphene, mx2
+    if name == "graphene":
+        a = graphene(vacuum=vacuum)
+    elif name == "h-BN":
+        a = graphene(formula="BN", a=2.504, vacuum=vacuum)
+    elif name == "2H-MoS2":
+        a = mx2("MoS2", kind="2H", a=3.18, thickness=3.19, vacuum=vacuum)
+    elif name == "2H-WS2":
+        a = mx2("WS2", kind="2H", a=3.18, thickness=3.14, vacuum=vacuum)
+    elif name == "1T-TiS2":
+        a = mx2("TiS2", kind="1T", a=3.41, thickness=2.85, vacuum=vacuum)
+    elif name == "1T-WSe2":
+        a = mx2("WSe2", kind="1T", a=3.32, thickness=3.1, vacuum=vacuum)
+    else:
+        raise ValueError(name)
+    a = _plain(a)
+    a.set_pbc([True, True, False])
+    return a
+
+
+def make_monolayer(name, n, pbc_z, vacuum=7.0):
+    u = monolayer_unit(name, vacuum=vacuum)
+    a = u.repeat((n, n, 1))
+    a.set_pbc([True, True, bool(pbc_z)])
+    return _plain(a), u
+
+
+def monolayer_cells():
+    cells = []
+    for m in MONOLAYERS:
+        for n in (3, 4, 5, 6):
+            for pbc_z in (True, False):
+                c = {"material": m, "kind": "monolayer", "n": n, "pbc_z": pbc_z, "noise": 0.0}
+                c["key"] = "%s|monolayer|%dx%d|%s" % (m, n, n, "TTT" if pbc_z else "TTF")
+                cells.append(c)
+    return cells
+
+
+def c04_cells():
+    cells = [c for c in c02_cells() if c["noise"] in (0.0, 0.02)]
+    extra = []
+    for c in monolayer_cells():
+        if c["n"] >= 5:          # SBC needs periodic heights > 2*max_cell_size
+            extra.append(c)
+            c2 = dict(c, noise=0.02)
+            c2["key"] = c["key"] + "|n0.02"
+            extra.append(c2)
+    return cells + extra
+
+
+# ------------------------------------------------------------------------------------------- C18 universe
+ADSORBATES = ["H", "O", "C", "N", "F", "S", "Cl"]
+
+
+def c18_cells():
+    cells = []
+    mats = elements() + [(m, COMPOUNDS[m][0]) for m in COMPOUNDS]
+    for m, lat in mats:
+        for facet in FACETS:
+            f = "".join(str(i) for i in facet)
+            if lat == "bcc" and f in ("110", "111"):
+                continue                      # open / thin cuts excluded by the property
+            if lat == "hcp" and f == "111":
+                continue
+            for layers in (3, 4, 5):
+                for nads in (0, 1, 2):
+                    c = {"material": m, "kind": "slab", "facet": list(facet), "layers": layers, "n_ads": nads}
+                    c["key"] = "%s|slab|%s|L%d|ads%d" % (m, f, layers, nads)
+                    cells.append(c)
+    for c in monolayer_cells():
+        if c["pbc_z"]:
+            c = dict(c, key="%s|monolayer|%dx%d" % (c["material"], c["n"], c["n"]))
+            cells.append(c)
+    return cells
+
+
+def build_c18(cell, rng, min_lateral=9.0, vacuum=10.0):
+    """Returns (atoms, adsorbate index list, proto, prim)."""
+    if cell["kind"] == "monolayer":
+        a, u = make_monolayer(cell["material"], cell["n"], True, vacuum=8.0)
+        return a, [], "monolayer", u
+    conv, prim, proto = conventional_cell(cell["material"])
+    s = surface(conv, tuple(cell["facet"]), cell["layers"], vacuum=vacuum)
+    s = _plain(s)
+    reps = repeats_for(s.get_cell().array, [True, True, False], min_lateral)
+    s = s.repeat((reps[0], reps[1], 1))
+    s.set_pbc(True)
+    ads = []
+    if cell["n_ads"]:
+        species = [x for x in ADSORBATES if atomic_numbers[x] not in set(s.get_atomic_numbers())]
+        z = s.get_positions()[:, 2]
+        top = np.nonzero(z > z.max() - 0.3)[0]
+        first = int(top[int(rng.integers(len(top)))])
+        chosen = [first]
+        if cell["n_ads"] == 2:
+            # the top atom farthest (in plane, MIC) from the first one
+            pos = s.get_positions()
+            _, d, _ = omic.mic_vectors(pos[top] - pos[first], s.get_cell().array, [True, True, False])
+            chosen.append(int(top[int(np.argmax(d))]))
+        pos = s.get_positions()
+        for k, i in enumerate(chosen):
+            X = species[int(rng.integers(len(species)))]
+            h = covalent_radii[atomic_numbers[X]] + covalent_radii[s.get_atomic_numbers()[i]] + 0.2
+            s += Atoms(X, positions=[pos[i] + np.array([0, 0, h])])
+            ads.append(len(s) - 1)
+    return _plain(s), ads, proto, prim
